@@ -64,9 +64,42 @@ const (
 	c18kPredef
 	c18kDevice
 	c18kNew
+	// keys whose account-key constraints contain an entry naming an assertion type this snapd does not know
+	c18kUOnly    // [unknown type]
+	c18kUNoMatch // [unknown type, known type that does not match]
+	c18kUMatch   // [unknown type, known type that matches]
+	c18kMatchU   // [known type that matches, unknown type]
 )
 
 const c18Authority = "canonical"
+
+// c18UnknownType is an assertion type name outside the set of types this snapd knows (checked by the fixture): what an
+// account-key issued for a later snapd may name in its constraints.
+const c18UnknownType = "some-future-type"
+
+// c18Con is one entry of an account-key's constraints as the harness describes it: the entry admits an assertion iff the
+// assertion's type is Type and its x-tag header matches the anchored regular expression Tag.
+type c18Con struct{ Type, Tag string }
+
+// c18ConsAdmit is the statement's reading of a constrained key, computed without snapd code: the signature is acceptable
+// only if at least one constraint entry matches the assertion. An entry naming a type the assertion is not of (a type
+// unknown to this snapd included) matches nothing.
+func c18ConsAdmit(cons []c18Con, typ, tag string) bool {
+	for _, con := range cons {
+		if con.Type == typ && regexp.MustCompile("^(?:"+con.Tag+")$").MatchString(tag) {
+			return true
+		}
+	}
+	return false
+}
+
+func c18ConsHeader(cons []c18Con) []interface{} {
+	var l []interface{}
+	for _, con := range cons {
+		l = append(l, map[string]interface{}{"headers": map[string]interface{}{"type": con.Type, "x-tag": con.Tag}})
+	}
+	return l
+}
 
 var c18Types = []string{"account", "account-key", "snap-declaration", "snap-revision", "model", "serial", "validation-set", "system-user"}
 
@@ -178,6 +211,24 @@ func c18NewFixture() *c18Fx {
 			"authority-id": c18Authority, "series": "16", "snap-id": c18SnapID1, "snap-name": "foo",
 			"publisher-id": "dev1", "timestamp": c18T(c18S),
 		}, nil, c18kRoot),
+	}
+	// account-keys of the signers described by a constraint list (entries naming an unknown assertion type)
+	if asserts.Type(c18UnknownType) != nil {
+		eng.HarnessError("C18 fixture: %q is a known assertion type, the harness needs an unknown one", c18UnknownType)
+	}
+	haveKey := map[int]string{}
+	for _, s := range c18Signers {
+		if s.Cons == nil {
+			continue
+		}
+		if have, ok := haveKey[s.Claim]; ok {
+			if have != fmt.Sprint(s.Cons) {
+				eng.HarnessError("C18 fixture: signers sharing key %d describe different constraints", s.Claim)
+			}
+			continue
+		}
+		haveKey[s.Claim] = fmt.Sprint(s.Cons)
+		fx.stored = append(fx.stored, fx.accountKey(c18Authority, fmt.Sprintf("cons%d", s.Claim), s.Claim, true, c18ConsHeader(s.Cons), c18kRoot))
 	}
 	return fx
 }
@@ -547,8 +598,11 @@ type c18Signer struct {
 	Bounded   bool // claimed key has an until
 	Known     bool // an account-key for the claimed key is in the database
 	Mine      bool // ... and it belongs to the declared authority
-	Admits    bool // its constraints admit the assertion
-	Tag       string
+	Admits    bool // its constraints admit the assertion (signers without Cons)
+	// Cons != nil: the account-key of the claimed key (added to the fixture from this description) carries exactly these
+	// constraint entries, and whether they admit the assertion is computed per case by c18ConsAdmit, not stated here
+	Cons      []c18Con
+	Tag       string // x-tag header of the candidate ("" = "ok")
 	SigByHeld bool // signature made by the claimed key
 }
 
@@ -565,6 +619,18 @@ var c18Signers = []c18Signer{
 	{Name: "raw-signed-right-key", Key: c18kOpen, Claim: c18kOpen, Raw: true, Known: true, Mine: true, Admits: true, SigByHeld: true},
 	{Name: "forged-with-foreign-key", Key: c18kUnknown, Claim: c18kOpen, Raw: true, Known: true, Mine: true, Admits: true, SigByHeld: false},
 	{Name: "forged-with-other-trusted-accounts-key", Key: c18kRoot, Claim: c18kOpen, Raw: true, Known: true, Mine: true, Admits: true, SigByHeld: false},
+	// constraint lists with an entry naming an assertion type this snapd does not know (such an entry matches nothing); the
+	// known-type entry is about models, so for the 7 other types it is a non-matching entry by type, for models by header value
+	{Name: "constrained-unknown-type-only", Key: c18kUOnly, Claim: c18kUOnly, Bounded: true, Known: true, Mine: true, SigByHeld: true,
+		Cons: []c18Con{{c18UnknownType, "o[a-k]"}}},
+	{Name: "constrained-unknown-type-and-known-not-matching", Key: c18kUNoMatch, Claim: c18kUNoMatch, Bounded: true, Known: true, Mine: true, SigByHeld: true,
+		Cons: []c18Con{{c18UnknownType, "o[a-k]"}, {"model", "nope"}}},
+	{Name: "constrained-unknown-type-and-known-matching", Key: c18kUMatch, Claim: c18kUMatch, Bounded: true, Known: true, Mine: true, SigByHeld: true,
+		Cons: []c18Con{{c18UnknownType, "o[a-k]"}, {"model", "o[a-k]"}}},
+	{Name: "constrained-unknown-type-and-known-tag-not-matching", Key: c18kUMatch, Claim: c18kUMatch, Bounded: true, Known: true, Mine: true, SigByHeld: true, Tag: "om",
+		Cons: []c18Con{{c18UnknownType, "o[a-k]"}, {"model", "o[a-k]"}}},
+	{Name: "constrained-known-matching-and-unknown-type", Key: c18kMatchU, Claim: c18kMatchU, Bounded: true, Known: true, Mine: true, SigByHeld: true,
+		Cons: []c18Con{{"model", "o[a-k]"}, {c18UnknownType, "o[a-k]"}}},
 }
 
 type c18Cfg struct {
@@ -614,8 +680,16 @@ func c18Ref(c c18Cfg, hasTS bool) (bool, string) {
 			return false, "assertion timestamp outside the key validity"
 		}
 	}
-	if !s.Admits {
-		return false, "key constraints do not admit the assertion"
+	admits := s.Admits
+	if s.Cons != nil {
+		tag := s.Tag
+		if tag == "" {
+			tag = "ok"
+		}
+		admits = c18ConsAdmit(s.Cons, c.Type, tag)
+	}
+	if !admits {
+		return false, "key constraints do not admit the assertion (no constraint entry matches it)"
 	}
 	if !s.SigByHeld {
 		return false, "signature not made by the named key"
@@ -992,7 +1066,7 @@ func TestVerifC18(t *testing.T) {
 	var overReject []string
 
 	// ---- part 1: matrix (sequential: the clock mock is process global) ----
-	var matrixCases, matrixAccepted, matrixRejectWanted int64
+	var matrixCases, matrixAccepted, matrixRejectWanted, matrixUnknownCons, matrixUnknownConsAccepted int64
 	for _, typ := range c18Types {
 		for _, s := range c18Signers {
 			for ts := range c18Points {
@@ -1012,6 +1086,12 @@ func TestVerifC18(t *testing.T) {
 						r.Distinct("matrix_outcome", v.class())
 						if v.accepted() {
 							matrixAccepted++
+						}
+						if s.Cons != nil {
+							matrixUnknownCons++
+							if v.accepted() {
+								matrixUnknownConsAccepted++
+							}
 						}
 						if !want {
 							matrixRejectWanted++
@@ -1039,6 +1119,8 @@ func TestVerifC18(t *testing.T) {
 	r.Add("matrix_cases", matrixCases)
 	r.Add("matrix_accepted", matrixAccepted)
 	r.Add("matrix_reference_rejects", matrixRejectWanted)
+	r.Add("matrix_cases_key_constraints_naming_unknown_type", matrixUnknownCons)
+	r.Add("matrix_accepted_key_constraints_naming_unknown_type", matrixUnknownConsAccepted)
 
 	// ---- part 2: edits (parallel; fixed clock inside every validity) ----
 	restore := asserts.MockTimeNow(c18Mid)
